@@ -123,6 +123,23 @@ func knownWitnesses(run *ev.Run, bin, scratch string) {
 		run.Distinct("hand-written: " + hp.name)
 		run.Add("audits_through_binary", 1)
 		run.Add("audits_in_process", 1)
+		// every command-line shape on every hand pair
+		if bv.Bad == "" && bv.Fail == hp.wantFail {
+			for _, shape := range cliShapes {
+				exit, line, bad, cmdline := cliShape(bin, shape, oldFile, newFile, filepath.Join(dir, "gen-"+shape))
+				run.Add("audits_through_other_command_line_shapes", 1)
+				switch {
+				case bad != "":
+					run.Inconclusive(fmt.Sprintf("hand-written pair %s: %s: %s", hp.name, cmdline, bad))
+				case hp.wantFail && exit == 0:
+					run.Violation("C18:missed-breaking:cli:"+shape, fmt.Sprintf("hand-written pair %q: %q exits 0 although the plain audit fails", hp.name, shape),
+						map[string]interface{}{"old": hp.old, "new": hp.new, "command": cmdline, "exit": exit})
+				case !hp.wantFail && exit != 0 && line:
+					run.Violation("C18:false-alarm:cli:"+shape, fmt.Sprintf("hand-written pair %q: %q fails the audit although the plain audit passes", hp.name, shape),
+						map[string]interface{}{"old": hp.old, "new": hp.new, "command": cmdline, "exit": exit})
+				}
+			}
+		}
 		for src, v := range map[string]verdict{"frugal -audit": bv, "in-process Auditor": iv} {
 			if v.Bad != "" {
 				run.Inconclusive(fmt.Sprintf("hand-written pair %s: %s: %s", hp.name, src, v.Bad))
